@@ -7,7 +7,7 @@ namespace KV.Transform
 open KV
 
 /-- `ImplMatches` looks at the host labelling only on the lines of the host -/
-theorem implMatches_congr {α : Type _} (h : NNet) (hw : WF h) (c : Nat) (m : NNet) (sh : Shape) (z : α) (neg : α → α)
+theorem implMatches_congr {α : Type _} (h : NNet) (hw : WFm h) (c : Nat) (m : NNet) (sh : Shape) (z : α) (neg : α → α)
     (prim : String → α → α → α → α → α) (anm vm v v' : Nat → α) (hv : ∀ l, l < h.net.lines.size → v l = v' l)
     (hm : ImplMatches h c m sh z neg prim anm vm v) : ImplMatches h c m sh z neg prim anm vm v' := by
   have hlt : ∀ k ll, (instIn h c k = some ll ∨ instOut h c k = some ll) → ll < h.net.lines.size := by
@@ -130,7 +130,53 @@ theorem verilog_resolved_rel {α : Type u} (hok : VOK cfg tl ports stmts) (lib :
       unfold verilogNet; rw [toNet_nodes_size]; exact hres
     obtain ⟨impl, sh, anm, vm, hf, hs, hmm⟩ := g2 _ hsz (by rw [inst_node_kind hok i hi]; exact hlib)
     rw [inst_node_kind hok i hi] at hf
-    exact ⟨impl, sh, anm, vm, hf, hs, implMatches_congr _ hW _ _ _ z neg prim anm vm v' _ hl hmm⟩
+    exact ⟨impl, sh, anm, vm, hf, hs, implMatches_congr _ hW.toWFm _ _ _ z neg prim anm vm v' _ hl hmm⟩
+  · intro a σ hm hrel
+    have hc := verilog_model_consOff (cfg := cfg) hok lib z neg prim a σ hm
+    obtain ⟨an', v', c1, c2, c3⟩ := bw _ _ hc (by
+      intro c hc1 hc2
+      obtain ⟨i, hi, hlib, rfl⟩ := libHole_is_inst hok lib hcl c ⟨hc1, hc2⟩
+      obtain ⟨impl, sh, anm, vm, hf, hs, hmm⟩ := hrel i hi hlib
+      exact ⟨impl, sh, anm, vm, by rw [inst_node_kind hok i hi]; exact hf, hs, hmm⟩)
+    exact ⟨an', v', c1, c2, c3⟩
+
+/-- **(b') the same through substitutions that REMOVE lines, instances and dangling logic** (composition with
+`C10.resolve_sem_general`: every library of the built-in kind — ignored input pins, implementations without designated cell,
+unconnected outputs): along the index maps `ρ` from the result to the parsed circuit -/
+theorem verilog_resolved_rel_general {α : Type u} (hok : VOK cfg tl ports stmts) (lib : Lib) (hcl : LibClean lib stmts) (h' : NNet)
+    (hw : (verilogNNet cfg tl ports stmts).wfNoTrail = true)
+    (hrok : resolveGenOKB lib (verilogNNet cfg tl ports stmts).keys (verilogNNet cfg tl ports stmts) = true)
+    (he : resolveCells lib (verilogNNet cfg tl ports stmts) = some h') (z : α) (neg : α → α) (prim : String → α → α → α → α → α) :
+    h'.wfNoTrail = true ∧ ∃ ρ : Ren, h'.net.io.map ρ.node = (verilogNet cfg tl ports stmts).io ∧
+    (∀ an' v' : Nat → α, ConsOff h' (fun _ => False) z neg prim an' v' →
+      ∃ (an : Nat → α) (σ : String → α),
+        VModelOff (isLibInst lib) tl ports stmts z neg prim (fun p => an ((verilogNet cfg tl ports stmts).sNodes.getD p 0)) σ ∧
+        LibRel cfg tl ports stmts lib z neg prim σ ∧
+        (∀ l', l' < h'.net.lines.size → ρ.line l' < (verilogNet cfg tl ports stmts).lines.size →
+          v' l' = vLabel cfg tl stmts z prim σ (ρ.line l')) ∧
+        (∀ j, j < h'.net.nodes.size → ρ.node j < (verilogNet cfg tl ports stmts).nodes.size → an (ρ.node j) = an' j)) ∧
+    (∀ (a : Nat → α) (σ : String → α), VModelOff (isLibInst lib) tl ports stmts z neg prim a σ →
+      LibRel cfg tl ports stmts lib z neg prim σ →
+      ∃ an' v', ConsOff h' (fun _ => False) z neg prim an' v' ∧
+        (∀ l', l' < h'.net.lines.size → ρ.line l' < (verilogNet cfg tl ports stmts).lines.size →
+          v' l' = vLabel cfg tl stmts z prim σ (ρ.line l')) ∧
+        (∀ j, j < h'.net.nodes.size → ρ.node j < (verilogNet cfg tl ports stmts).nodes.size →
+          an' j = a ((verilogNet cfg tl ports stmts).sNodes.idxOf (ρ.node j)))) := by
+  have hW := WFm.of_wfNoTrail hw
+  obtain ⟨r1, ρ, r2, _, _, _, fw, bw⟩ := C10.resolve_sem_general lib (verilogNNet cfg tl ports stmts) h' hw hrok he z neg prim
+  refine ⟨r1, ρ, r2, ?_, ?_⟩
+  · intro an' v' hc
+    obtain ⟨an, v, g1, g2, g3, g4⟩ := fw an' v' hc
+    obtain ⟨σ, hm, hl⟩ := verilog_consOff_model hok lib hcl z neg prim an v g1
+    refine ⟨an, σ, hm, ?_, fun l' h1 h2 => by rw [← g3 l' h1 h2]; exact hl _ h2, g4⟩
+    intro i hi hlib
+    have hres := v_resolved_inst hok i hi 0
+    have hsz : (module cfg tl ports stmts).nodeIdx (.cell i.name 0) < (verilogNNet cfg tl ports stmts).net.nodes.size := by
+      show _ < (verilogNet cfg tl ports stmts).nodes.size
+      unfold verilogNet; rw [toNet_nodes_size]; exact hres
+    obtain ⟨impl, sh, anm, vm, hf, hs, hmm⟩ := g2 _ hsz (by rw [inst_node_kind hok i hi]; exact hlib)
+    rw [inst_node_kind hok i hi] at hf
+    exact ⟨impl, sh, anm, vm, hf, hs, implMatches_congr _ hW _ _ _ z neg prim anm vm v _ hl hmm⟩
   · intro a σ hm hrel
     have hc := verilog_model_consOff (cfg := cfg) hok lib z neg prim a σ hm
     obtain ⟨an', v', c1, c2, c3⟩ := bw _ _ hc (by
